@@ -6,6 +6,19 @@ BASELINE = ("cd /repo && cargo nextest run --workspace --no-fail-fast --tool-con
             "--profile pb --test-threads 8 --offline")
 TECH = "contract-based deductive verification: Verus (Z3) on functions of /repo extracted mechanically on every run"
 CLAIMED = {
+ "C02": dict(
+   text=("Partial claim — a thin slice: three rule checks never reject a blueprint that abides by their rule. On the real text of "
+         "pavexc's cloneables_can_be_cloned, runtime_singletons_are_thread_safe and ConstructibleDb::verify_lifecycle_of_singleton_dependencies "
+         "(the same extractions as C08, obligations tagged @C02) Verus discharges the converse of C08's obligations: if NO component is "
+         "subject to the rule with a type that lacks the trait / if every runtime singleton is Send and Sync / if no singleton has an input "
+         "whose designated constructor is request-scoped ('singletons depend only on singletons' — transient inputs are allowed), the "
+         "function adds no diagnostic at all (error count unchanged), for a component database of any size. An over-strict variant (Clone "
+         "demanded of every constructor, transients forbidden to singletons) is a refuted obligation."),
+   note=("NOT decided — and this is almost all of C02: acceptance by the WHOLE pipeline (constructibility, cycles, route overlap, the "
+         "borrow checker's move/borrow analysis over the call graph, codegen) needs every other pass to stay silent too; those are "
+         "petgraph / rustdoc analyses outside what Verus accepts (DESIGN §3/C02). The trait oracle, the component database accessors and "
+         "the diagnostic builders are assumed stand-ins; the sink is observed through a ghost error count. No native replay."),
+   design="§3/C02"),
  "C04": dict(
    text=("Partial claim — a thin slice: the compile-time clause 'the registration in the nearest enclosing (nested) blueprint wins (within "
          "one blueprint, the latest registration), registrations of parents are inherited, registrations of sibling blueprints are "
